@@ -116,7 +116,8 @@ def run(ctx):
             ref_s = shapes[(fname, n2)]
             if not np.allclose(np.asarray(b.vertices), np.asarray(ref_s.vertices), rtol=0, atol=1e-12):
                 viol(fname, "iteration", f"{n2}: iterating again yields a shape modified by the caller of the first iteration", ["iteration", "history"])
-        for badname in ("No Such Solid", "", "cube"):
+        # unknown names of every kind of hashable key: strings, and numbers / None / tuples as a caller indexing by position would pass
+        for badname in ("No Such Solid", "", "cube", 86, None, 2.5, True, ("Cube",), b"Cube"):
             try:
                 fam.get_shape(badname)
                 viol(fname, "get_shape", f"unknown name {badname!r} accepted", ["unknown_name"])
@@ -186,10 +187,12 @@ def run(ctx):
                      ["cross_reference"])
         elif fam:
             viol("science1220869", "cross_reference", f"{n} cites {meta.get('source')}:{meta.get('name')} which is not an entry of {fam}", ["cross_reference"])
-    for badkey in ("Z99", ""):
+    for badkey in ("Z99", "", 7, None, 1.5, ("P01",)):
         try:
             sci.get_shape(badkey)
             viol("science1220869", "get_shape", f"unknown name {badkey!r} accepted", ["unknown_name"])
         except KeyError:
             pass
+        except Exception as e:
+            viol("science1220869", "get_shape", f"unknown name {badkey!r} raised {type(e).__name__} instead of KeyError", ["unknown_name"])
     ctx.exhaustive = True
